@@ -673,7 +673,7 @@ func genCase(t *rapid.T) *Case {
 	k := rapid.IntRange(1, 5).Draw(t, "nExchanges")
 	for i := 0; i < k; i++ {
 		ex := &exchange{Req: genReq(t, i), API: rapid.IntRange(0, 1).Draw(t, "api")}
-		ex.Resp = gen.GenResp(t, i, ex.Req.Method, gen.RespOpts{Fold: false, FoldTrailers: true, UntilClose: true, ChunkExt: true, OtherInterim: true})
+		ex.Resp = gen.GenResp(t, i, ex.Req.Method, gen.RespOpts{Fold: false, FoldTrailers: true, UntilClose: true, ChunkExt: true, OtherInterim: true, KeepAliveUntilClose: true})
 		if ex.Resp.BodyLen > 30000 {
 			ex.Resp.Body, ex.Resp.BodyLen = ex.Resp.Body[:30000], 30000
 			for j := range ex.Resp.Lines {
